@@ -78,20 +78,44 @@ def stringToSatoshis (s : Bytes) : Amt :=
 /-! ## wallet keys and the look-ups of wallet/wallet.go -/
 
 structure KeyRec where
-  pub : Bytes       -- keys[i].BtcAddr.Pubkey (33 bytes, compressed)
+  pub : Bytes       -- keys[i].BtcAddr.Pubkey (33 bytes compressed; 65 bytes for an uncompressed key imported through .others)
   h160 : Bytes      -- keys[i].BtcAddr.Hash160
-  segH160 : Bytes   -- segwit[i].Hash160 : HASH160(00 14 h160) unless bech32_mode, else 20 zero bytes
+  segH160 : Bytes   -- segwit[i].Hash160 : HASH160(00 14 h160) unless bech32_mode, else 20 zero bytes;
+                    -- [] stands for segwit[i] == nil (a key that is not compressed has no SegWit form): every hash the
+                    -- look-ups compare it with has 20 bytes, so [] never matches - the `segwit[i] != nil &&` guards
   deriving Repr, DecidableEq
 
 def zero20 : Bytes := List.replicate 20 0
 
-/-- make_wallet: "Calculate SegWit addresses" -/
+/-- make_wallet: "Calculate SegWit addresses" - one entry per key, AT THE KEY'S OWN INDEX (`segwit[i]`, the slice is
+    made with len(keys)); `if len(pk.Pubkey) != 33 { continue }` leaves the entry nil -/
 def mkKey (H : Addr.Hashes) (bech32 : Bool) (pub : Bytes) : KeyRec :=
   let h := H.hash160 pub
-  { pub := pub, h160 := h, segH160 := if bech32 then zero20 else H.hash160 ([0, 20] ++ h) }
+  { pub := pub, h160 := h,
+    segH160 := if pub.length ≠ 33 then [] else if bech32 then zero20 else H.hash160 ([0, 20] ++ h) }
 
+/-- keys[] in the order make_wallet builds it: the keys of the .others file first (load_others), then the `keycnt`
+    deterministic ones; segwit[] is index-parallel to it (a record per index here) -/
 def keyTable (H : Addr.Hashes) (bech32 : Bool) (pubs : List Bytes) : List KeyRec :=
   pubs.map (mkKey H bech32)
+
+/-- The two Go slices as they are: `keys` and the separately built `segwit`. `segTable` mirrors the loop
+    `segwit = make(.., len(keys)); for i, pk := range keys { if len(pk.Pubkey) != 33 { continue }; segwit[i] = … }`:
+    `none` = nil entry. `Proofs/C13Keys.lean` proves that the record table above IS these two slices zipped index by
+    index (`keyTable_is_zip`), i.e. what an `append`-built segwit slice would break. -/
+def segTable (H : Addr.Hashes) (bech32 : Bool) (pubs : List Bytes) : List (Option Bytes) :=
+  pubs.map fun pub =>
+    if pub.length ≠ 33 then none
+    else some (if bech32 then zero20 else H.hash160 ([0, 20] ++ H.hash160 pub))
+
+/-- hash_to_key_idx written over the two slices, as in wallet.go: one loop over the index range of keys[], testing
+    `keys[i].Hash160` and then `segwit[i] != nil && segwit[i].Hash160` -/
+def hashToKeyIdxSlices (H : Addr.Hashes) (pubs : List Bytes) (seg : List (Option Bytes)) (h : Bytes) : Option Nat :=
+  (List.range pubs.length).find? fun i =>
+    H.hash160 (pubs.getD i []) == h ||
+    (match seg.getD i none with
+     | some s => s == h
+     | none => false)
 
 /-- hash_to_key_idx -/
 def hashToKeyIdx (ks : List KeyRec) (h : Bytes) : Option Nat :=
